@@ -230,7 +230,8 @@ func (w *skWalker) classify(cond ast.Expr) (kind, arg string) {
 		if c.Op == token.NEQ && selString(c.X) == "h" && selString(c.Y) == "nil" {
 			return "hnonnil", ""
 		}
-		if c.Op == token.LAND && isCallTo(c.X, ".hasContent") && isCallTo(c.Y, ".hasPart") {
+		// `s.hasContent() && <condition on (msn, part) that consults hasPart>`: the blocking-reload test
+		if c.Op == token.LAND && isCallTo(c.X, ".hasContent") && mentionsCall(c.Y, ".hasPart") && w.hasSyncToken(c.Y) == "" {
 			return "pred", "msnReady"
 		}
 		if c.Op == token.GTR && selString(c.X) == "s.nextPartID" && selString(c.Y) == "capturePartID" {
